@@ -11,7 +11,17 @@ import (
 	"github.com/tjfoc/gmsm/sm4"
 )
 
-func c11Key() []byte { return c05Val([]interface{}{"lcg", float64(7)}) }
+// the key in force (Val(<<"lcg", id>>)); every key is handed to the library in the same caller-owned buffer, refilled
+// for each call: the helpers must take the key from its current contents, not from what the buffer held before
+var (
+	c11KeyID    = 7
+	c11KeyStore [16]byte
+)
+
+func c11Key() []byte {
+	copy(c11KeyStore[:], c05Val([]interface{}{"lcg", float64(c11KeyID)}))
+	return c11KeyStore[:]
+}
 func c11IV(i int) []byte {
 	b := make([]byte, 16)
 	if i == 0 {
@@ -103,6 +113,7 @@ type c11Row struct {
 		Iv   int    `json:"iv"`
 		Fam  int    `json:"fam"`
 		Len  int    `json:"len"`
+		Key  int    `json:"key"`
 	} `json:"case"`
 	Expect []int `json:"expect"`
 }
@@ -137,6 +148,10 @@ func c11table(args []string) error {
 			return err
 		}
 		c := row.Case
+		c11KeyID = 7
+		if c.Key != 0 {
+			c11KeyID = c.Key
+		}
 		if err := sm4.SetIV(c11IV(c.Iv)); err != nil {
 			return err
 		}
